@@ -178,7 +178,7 @@ def wrap_factory(kind_index):
             obs = []
             if is_ret(out):
                 env = out[1]
-                ok_shape = isinstance(env, dict) and set(env.keys()) == {'signatures', 'signed'} and env['signatures'] == {}
+                ok_shape = isinstance(env, dict) and set(env.keys()) == {'signatures', 'signed'} and (env['signatures'] == {} or (isinstance(env['signatures'], SDict) and not env['signatures'].slots))
                 if not ok_shape:
                     obs.append(oblige(eng, 'the envelope has exactly the fields signatures (empty) and signed', True, mk))
                 else:
